@@ -442,18 +442,44 @@ func (c *Ctx) checkTagValidation(r *Report, fns []*ssa.Function) {
 			if !raises {
 				continue
 			}
-			var conds []string
+			var isRoot, tagsNonEmpty, noTags, hasStar, notSuffix bool
 			for _, g := range guardsOf(b) {
-				conds = append(conds, fmt.Sprintf("%s=%v", c.prov(g.Cond, &Frame{Fn: f}), g.Polarity))
+				switch x := g.Cond.(type) {
+				case *ssa.BinOp:
+					xs := c.prov(x.X, &Frame{Fn: f}).String()
+					if k, ok := constString(x.Y); ok && (x.Op == token.EQL || x.Op == token.NEQ) {
+						eq := (x.Op == token.EQL) == g.Polarity
+						if k == "root" && eq {
+							isRoot = true
+						}
+						// the logger's tag list: its Tags field or the GetTags() accessor
+						if k == "" && !eq && (strings.HasSuffix(xs, ".Tags") || strings.Contains(xs, "GetTags(")) {
+							tagsNonEmpty = true
+						}
+					}
+					if k, ok := constInt(x.Y); ok && k == 0 && (x.Op == token.EQL) == g.Polarity && strings.HasPrefix(xs, "builtin:len(") {
+						noTags = true
+					}
+				case *ssa.Call:
+					if calleeIs(x, "strings", "", "Contains") {
+						if k, ok := constString(x.Call.Args[1]); ok && k == "*" && g.Polarity {
+							hasStar = true
+						}
+					}
+					if calleeIs(x, "strings", "", "HasSuffix") {
+						if k, ok := constString(x.Call.Args[1]); ok && k == "_*" && !g.Polarity {
+							notSuffix = true
+						}
+					}
+				}
 			}
-			cs := strings.Join(conds, " & ")
-			if strings.Contains(cs, `"root")=true`) && (strings.Contains(cs, `.Tags, "")=true`) && strings.Contains(cs, "!=") || strings.Contains(cs, `binop:!=(`) && strings.Contains(cs, ".Tags")) {
+			if isRoot && tagsNonEmpty {
 				pats[0].ok = true
 			}
-			if strings.Contains(cs, "builtin:len(") && strings.Contains(cs, ", 0)=true") {
+			if noTags {
 				pats[1].ok = true
 			}
-			if strings.Contains(cs, `strings.Contains(`) && strings.Contains(cs, `"*")=true`) && strings.Contains(cs, `strings.HasSuffix(`) && strings.Contains(cs, `"_*")=false`) {
+			if hasStar && notSuffix {
 				pats[2].ok = true
 			}
 		}
